@@ -266,7 +266,7 @@ func (p *Core) genXfer() []sim.Op {
 	}
 	op := sim.Op{K: "xfer", P: ri, X: int64(d), T: w.Tag(), C: sidx, N: amt}
 	alias := false
-	if r.Kind == "t1" && !strings.Contains(denom, "/") || r.Kind == "t1" && strings.HasPrefix(denom, "ibc/") {
+	if !p.Opt.NoAlias && (r.Kind == "t1" && !strings.Contains(denom, "/") || r.Kind == "t1" && strings.HasPrefix(denom, "ibc/")) {
 		alias = w.Chance(0.3)
 	}
 	if alias {
@@ -785,7 +785,25 @@ func (p *Core) tokAfterBlock(ci int, res []*sim.TxResult) {
 		p.authzCompare(ci)
 	}
 
-	// C31: tracked total escrow
+	p.checkTrackedEscrow(ci, now)
+	// C30: native supply never changes
+	if w.Armed("C30") {
+		for _, d := range t.natives {
+			if !now.get(supplyKey, d).Equal(t.genSupply[ci][d]) {
+				w.Violate("C30", "native-supply-changed", "", fmt.Sprintf("%s: supply of native %s is %s, was %s at genesis", c.ID, d, now.get(supplyKey, d), t.genSupply[ci][d]))
+			}
+		}
+		p.checkChannelEquations()
+	}
+}
+
+// checkTrackedEscrow (C31): the queried total escrow of every denomination equals the model
+// ledger of IBC escrows minus releases, is not negative and does not exceed what the transfer
+// escrow accounts hold. Runs after every block and right after a genesis export/import restart.
+func (p *Core) checkTrackedEscrow(ci int, now amap) {
+	w := p.w
+	c := p.C[ci]
+	t := &p.tok
 	if w.AnyArmed("C31", "C30") {
 		var ds []string
 		for d := range t.tracked[ci] {
@@ -813,15 +831,6 @@ func (p *Core) tokAfterBlock(ci int, res []*sim.TxResult) {
 				w.Violate("C31", "tracked-escrow-exceeds-balances", "", fmt.Sprintf("%s: tracked escrow of %s is %s but all transfer escrow accounts hold %s", c.ID, d, got, sum))
 			}
 		}
-	}
-	// C30: native supply never changes
-	if w.Armed("C30") {
-		for _, d := range t.natives {
-			if !now.get(supplyKey, d).Equal(t.genSupply[ci][d]) {
-				w.Violate("C30", "native-supply-changed", "", fmt.Sprintf("%s: supply of native %s is %s, was %s at genesis", c.ID, d, now.get(supplyKey, d), t.genSupply[ci][d]))
-			}
-		}
-		p.checkChannelEquations()
 	}
 }
 
